@@ -90,7 +90,7 @@ func racePass(id, tier, scratch string) int {
 		}
 	}
 	// merge into the evidence file
-	evPath := filepath.Join(verifDir(), "evidence", id+".json")
+	evPath := filepath.Join(evidenceDir(), id+".json")
 	if b, err := os.ReadFile(evPath); err == nil {
 		var ev map[string]any
 		if json.Unmarshal(b, &ev) == nil {
